@@ -12,7 +12,7 @@ pub fn prop() -> Prop {
     Prop {
         id: "C19",
         level: "model_checking",
-        rule: "integers: 0, +-1, 2^k-1, 2^k, 2^k+1 for k=1..64 (both signs, clipped to [-2^63, 2^64)), 2^53+-{0,1,2}, the four range ends (~390 values), each through 10 pipeline routes (pass-through, select, sort, unique incl. neighbour pairs n/n+1, group-by, merge, split-by) and 30 non-arithmetic function routes; decimal strings: mantissas {0..12, 99, 100, 999, 10^k, 10^k-1 for k in 17..60, long digit runs} x scale {0,1,2,17,40} x exponent {none,0,+-1,+-100} x sign x spellings (leading/trailing zeros, e/E, +): all pairs over 120 (thorough 400) strings x \"+\" \"-\" \"*\" and six comparisons, plus abs, unary minus, || (value preserving, idempotent, canonical) on every string and 3-ary sums/products on a subset; non-trivial = |n| > 2^53 or a string with >= 17 digits or an exponent; distinct by construction; every integer also written on the command line (--set variable, --set macro, literal selection, literal inside --filter, inside a container literal); the ordering function of the number-as-string group (\"sort_by\" and an alias) over ~2n windows of 4-5 strings plus the whole list both ways, with one item lacking the key, x 8 key forms (member, parent via ^, --set variable, --set macro, set variable, defined macro, the strings themselves), compared with the stable order by exact value; every integer right after / between 9 kinds of number token that cannot be converted (a lone minus, empty exponents, a dangling point, overflowing exponents)",
+        rule: "integers: 0, +-1, 2^k-1, 2^k, 2^k+1 for k=1..64 (both signs, clipped to [-2^63, 2^64)), 2^53+-{0,1,2}, the four range ends (~390 values), each through 10 pipeline routes (pass-through, select, sort, unique incl. neighbour pairs n/n+1, group-by, merge, split-by) and 30 non-arithmetic function routes; decimal strings: mantissas {0..12, 99, 100, 999, 10^k, 10^k-1 for k in 17..60, long digit runs} x scale {0,1,2,17,40} x exponent {none,0,+-1,+-100} x sign x spellings (leading/trailing zeros, e/E, +): all pairs over 120 (thorough 400) strings x \"+\" \"-\" \"*\" and six comparisons, plus abs, unary minus, || (value preserving, idempotent, canonical) on every string and 3-ary sums/products on a subset; non-trivial = |n| > 2^53 or a string with >= 17 digits or an exponent; distinct by construction; every integer also written on the command line (--set variable, --set macro, literal selection, literal inside --filter, inside a container literal); the ordering function of the number-as-string group (\"sort_by\" and an alias) over ~2n windows of 4-5 strings plus the whole list both ways, with one item lacking the key (and every ordered pair and window of three of 17 digit-only strings with and without leading zeros), x 8 key forms (member, parent via ^, --set variable, --set macro, set variable, defined macro, the strings themselves), compared with the stable order by exact value; every integer right after / between 9 kinds of number token that cannot be converted (a lone minus, empty exponents, a dangling point, overflowing exponents)",
         explanation: "integers are compared digit for digit (exact i128 on both sides after the strict reader); nas results are parsed as exact decimals and compared as rationals with num-bigint arithmetic, so the check does not depend on how jawk spells the result",
         assumptions: a,
         guards: vec!["operands-with-a-constant-fall-back", "integer-after-a-malformed-number", "integer-on-the-command-line", "nas-sort-reorders", "nas-sort-ties", "above-2^53", "u64-max", "i64-min", "neighbours-stay-distinct", "long-mantissa", "big-exponent", "spelling-variant"],
@@ -468,7 +468,6 @@ fn nas(ctx: &mut Ctx) {
 /// items without a key first; the key is an expression like any other (it may read ^, variables and macros)
 fn nas_sort(ctx: &mut Ctx) {
     let strs = nas_strings(ctx.tier);
-    let decs: Vec<Dec> = strs.iter().map(|s| Dec::parse(s).unwrap()).collect();
     let n = strs.len();
     let mut lists: Vec<Vec<usize>> = Vec::new();
     for start in 0..n {
@@ -477,6 +476,29 @@ fn nas_sort(ctx: &mut Ctx) {
     }
     lists.push((0..n).collect());
     lists.push((0..n).rev().collect());
+    nas_sort_lists(ctx, &strs, &lists);
+    // strings made of digits only, with and without leading zeros: the longer text is often the smaller number. Every
+    // ordered pair, every window of three, the whole list both ways.
+    let digits: Vec<String> = ["0", "00", "1", "01", "007", "12", "0100", "99", "10", "9", "010", "100", "0009", "90", "000000000000000000000000000000000000000000000000000000000009", "18446744073709551616", "018446744073709551615"].iter().map(|s| s.to_string()).collect();
+    let m = digits.len();
+    let mut dl: Vec<Vec<usize>> = Vec::new();
+    for i in 0..m {
+        for j in 0..m {
+            if i != j {
+                dl.push(vec![i, j]);
+            }
+        }
+        dl.push(vec![i, (i + 3) % m, (i + 7) % m]);
+    }
+    dl.push((0..m).collect());
+    dl.push((0..m).rev().collect());
+    ctx.guard("digit-strings-with-leading-zeros");
+    nas_sort_lists(ctx, &digits, &dl);
+    ctx.level_done("nas:sort_by-over-windows-of-the-strings-x-8-key-forms");
+}
+
+fn nas_sort_lists(ctx: &mut Ctx, strs: &[String], lists: &[Vec<usize>]) {
+    let decs: Vec<Dec> = strs.iter().map(|s| Dec::parse(s).unwrap()).collect();
     let keys: [(&str, &str); 8] = [
         ("item-member", "(\"sort_by\" .items .v)"),
         ("alias-order_by_nas", "(order_by_nas .items .v)"),
@@ -532,7 +554,6 @@ fn nas_sort(ctx: &mut Ctx) {
         }
         ctx.outcome("nas-exact");
     }
-    ctx.level_done("nas:sort_by-over-windows-of-the-strings-x-8-key-forms");
 }
 
 fn run(ctx: &mut Ctx) {
